@@ -110,6 +110,23 @@ def dataset_job(job_id, cls_name, N=3, extra=False, source_filter=None):
                 ctx.states += 1
                 ctx.transitions += len(batches)
         datastub.SHUFFLE_ORDER = None
+        if extra:
+            # the baseline is re-evaluated during training: the SAME base dataset is wrapped again under the same key with new
+            # values after the first wrapper has been read; items must then carry the new values
+            ex2 = T.sym_tensor("extra_new", (N,), T.float32)
+            base_ds = getattr(ds, cls_name)(td.clone())
+            w1 = base_ds.add_key("extra", ex.clone())
+            module = types.SimpleNamespace(dataloader_num_workers=0)
+            list(base.RL4COLitModule._dataloader_single(module, w1, 2, False))
+            w2 = base_ds.add_key("extra", ex2.clone())
+            cur.clear()
+            cur.update(cls=cls_name, N=N, bs=2, perm=list(range(N)), extra=True, rewrap=True)
+            got, pos = True, 0
+            for b in base.RL4COLitModule._dataloader_single(module, w2, 2, False):
+                for r in range(b.batch_size[0]):
+                    got = s_and(got, s_and(_eq(b["extra"].a[r], ex2.a[pos]) if "extra" in b.keys() else False, _eq(b["locs"].a[r], locs.a[pos])))
+                    pos += 1
+            ctx.prove(E, f"[{cls_name} N={N}] wrapping the same dataset again under the same key (baseline re-evaluated) makes the items carry the NEW values", got, cexb)
 
     try:
         E.run(harness)
